@@ -20,7 +20,10 @@ FRAGMENTS = {
                        'define f with a begin hue b end', 'if {q} hue 1', 'set "a" zone z', 'repeat with i from 1 to k begin hue i end',
                        'define f begin assign loc 1 end hue loc', 'assign v 1 hue {v + w}', 'define f with a begin hue a end f u',
                        'printf "{}" nope', 'define f with p_ begin hue p_ end hue p_', 'define f with p_ q_ begin hue p_ end define g begin hue q_ end',
-                       'define f with p_ begin assign loc_ p_ end print loc_', 'define f with p_ begin hue p_ end on p_', 'repeat while {c < 3} begin hue 1 end', 'time at noon', 'define m k', 'hue {1 + [h 2]}'],
+                       'define f with p_ begin assign loc_ p_ end print loc_', 'define f with p_ begin hue p_ end on p_', 'repeat while {c < 3} begin hue 1 end', 'time at noon', 'define m k', 'hue {1 + [h 2]}',
+                       # the first assignment of a name cannot read that name
+                       'assign count {count + 1}', 'assign total {2 * total}', 'assign a 1 assign b {a + b}', 'define f begin assign n {n - 1} end f',
+                       'assign v v', 'define f with p begin assign q {p + q} end f 1'],
     'nested-routine': ['define f begin define g begin hue 1 end end', 'define f with a begin repeat 2 begin define g begin hue 1 end end end',
                        'define f begin if {1} begin define g with x begin hue x end end end',
                        'define f begin hue 1 define g with y begin hue y end hue 2 end'],
